@@ -1,10 +1,162 @@
 (* C07 — row models survive the trip to spreadsheet cells and back, in every layout.
-   Only property theorems here, each closed by [exact] and followed by Print Assumptions. *)
-From Coq Require Import List NArith Bool.
-From RPFT Require Import Base.Sexp Base.PyStr Gen.Tables Cell.Cell Row.Ty Row.Layout Row.RowParse Row.RowUnparse Row.FlowRow Row.RowFacts.
+   Only property theorems here, each closed by [exact] and followed by Print Assumptions.
+
+   Vocabulary (Row/RoundTrip.v):  [row_dom root v targets] is the executable domain of the
+   statement = representable (strings trimmed, floats in the modelled decimal fragment, every
+   list element / non-default compound field writes at least one column — i.e. no all-default
+   model or empty list inside a list —, written headers lead back to their field) + admissible
+   (a node matched by a target header is packed into one cell: the cell codec's domain of C08 —
+   two list levels for the value at hand, no blank last element, no U+0001 — and the shapes the
+   keyword decoder inverts).  The model's cell parser is CellParser.parse without templating:
+   strings with Jinja openers are outside the modelled fragment (evidence: assumptions). *)
+From Coq Require Import List NArith ZArith Bool Permutation.
+From RPFT Require Import Base.Sexp Base.PyStr Base.Result Gen.Tables Cell.Cell Row.Ty Row.Layout Row.RowParse
+  Row.RowUnparse Row.FlowRow Row.RowFacts Row.TextFacts Row.RoundTrip Row.RoundTripFacts Row.RoundTripExamples
+  Row.RefuteFacts Row.CtxRoundTripFacts Row.FlowRowFacts Row.OrderFacts.
 Import ListNotations.
 
 (* the regenerated constants satisfy what the proofs need *)
 Theorem C07_tables_ok : row_tables_ok = true.
 Proof. exact row_tables_ok_true. Qed.
 Print Assumptions C07_tables_ok.
+
+Theorem C07_text_tables_ok : row_text_tables_ok = true.
+Proof. exact row_text_tables_ok_true. Qed.
+Print Assumptions C07_text_tables_ok.
+
+(* 1. the round trip, any model of the universe, any layout (target headers), no row context,
+      no excluded headers: the row IS written (distinct headers) and read back as the instance.
+      Covers spread layouts at any nesting and packed leaves (lists of basics, lists of lists of
+      basics, bare lists, flat models as key;value pairs, renamed fields). *)
+Theorem C07_row_roundtrip : forall root v targets,
+  row_dom root v targets = true ->
+  exists cells, unparse_row root v targets [] = Ok cells
+                /\ parse_row {| rm_ty := root; rm_ctx := None |} cells = Ok v.
+Proof. exact row_roundtrip_total. Qed.
+Print Assumptions C07_row_roundtrip.
+
+Example C07_row_roundtrip_nonvacuous : row_dom ex_ty ex_v ex_targets = true.
+Proof. exact ex_in_domain. Qed.
+Print Assumptions C07_row_roundtrip_nonvacuous.
+
+Example C07_row_roundtrip_nonvacuous_cells : unparse_row ex_ty ex_v ex_targets [] = Ok ex_cells.
+Proof. exact ex_unparse. Qed.
+Print Assumptions C07_row_roundtrip_nonvacuous_cells.
+
+Example C07_row_roundtrip_nonvacuous_spread : row_dom ex_ty ex_v [] = true.
+Proof. exact ex_in_domain_spread. Qed.
+Print Assumptions C07_row_roundtrip_nonvacuous_spread.
+
+(* 2. the instance for the REGENERATED flow row model (its row-type dependent header remap,
+      the export targets FlowContainer.to_row_data_sheet passes, strip_uuids = False).
+      [flow_dom v]: the row type is a known one and v is in [row_dom] for FlowRowModel read with
+      the header table of that row type (so at most the main argument of its row type is set). *)
+Theorem C07_flow_row_roundtrip : forall v,
+  flow_dom v = true ->
+  exists cells, flow_unparse v false = Ok cells /\ flow_parse cells = Ok v.
+Proof. exact flow_row_roundtrip. Qed.
+Print Assumptions C07_flow_row_roundtrip.
+
+Example C07_flow_row_roundtrip_nonvacuous : flow_dom ex_flow_row = true.
+Proof. exact ex_flow_in_domain. Qed.
+Print Assumptions C07_flow_row_roundtrip_nonvacuous.
+
+(* the same for any row model with a context remap (generic over the tables) *)
+Theorem C07_ctx_row_roundtrip : forall cx fields f2h,
+  ctx_wf cx fields f2h = true -> forall v targets,
+  ctx_row_dom cx fields f2h v targets = true ->
+  exists cells, unparse_row (TModel fields [] f2h) v targets [] = Ok cells
+                /\ parse_row {| rm_ty := TModel fields [] f2h; rm_ctx := Some cx |} cells = Ok v.
+Proof. exact ctx_row_roundtrip. Qed.
+Print Assumptions C07_ctx_row_roundtrip.
+
+Example C07_ctx_row_roundtrip_nonvacuous : ctx_wf flow_cx flow_fields flow_f2h = true.
+Proof. exact flow_ctx_wf. Qed.
+Print Assumptions C07_ctx_row_roundtrip_nonvacuous.
+
+(* the remap tables, finite proofs over the regenerated tables: for every known row type the
+   header a field is written under is re-keyed back to that field (message_text: to the main
+   argument of the row type); every main argument is selected by some row type; in the
+   sub-models header_name_to_field_name inverts field_name_to_header_name *)
+Theorem C07_flow_remap_identity : forall rt f n,
+  In (rt, f) (cx_sw_table flow_cx) -> In n (map f_name flow_fields) ->
+  (remap_get flow_f2h n = cx_sw_header flow_cx -> f = n) ->
+  ctx_h2f (Some flow_cx) [(cx_sw_column flow_cx, rt)] (remap_get flow_f2h n) = Ok n.
+Proof. exact flow_remap_identity. Qed.
+Print Assumptions C07_flow_remap_identity.
+
+Example C07_flow_remap_identity_nonvacuous :
+  In ([115; 101; 110; 100; 95; 109; 101; 115; 115; 97; 103; 101]%N,
+      [109; 97; 105; 110; 97; 114; 103; 95; 109; 101; 115; 115; 97; 103; 101; 95; 116; 101; 120; 116]%N) (cx_sw_table flow_cx)
+  /\ In [109; 97; 105; 110; 97; 114; 103; 95; 109; 101; 115; 115; 97; 103; 101; 95; 116; 101; 120; 116]%N (map f_name flow_fields)
+  /\ remap_get flow_f2h [109; 97; 105; 110; 97; 114; 103; 95; 109; 101; 115; 115; 97; 103; 101; 95; 116; 101; 120; 116]%N = cx_sw_header flow_cx.
+Proof. exact flow_remap_identity_hyps. Qed.
+Print Assumptions C07_flow_remap_identity_nonvacuous.
+
+Theorem C07_flow_mainargs_reachable : flow_mainargs_reachable = true.
+Proof. exact flow_mainargs_reachable_true. Qed.
+Print Assumptions C07_flow_mainargs_reachable.
+
+Theorem C07_flow_submodel_remaps_inverse : forallb (fun f => remaps_inverse (f_ty f)) flow_fields = true.
+Proof. exact flow_submodel_remaps_inverse. Qed.
+Print Assumptions C07_flow_submodel_remaps_inverse.
+
+(* outside flow_dom: the main argument of another row type is written under message_text and
+   comes back in the wrong field (or not at all) *)
+Theorem C07_flow_wrong_mainarg_refuted :
+  flow_dom ex_flow_wrong_mainarg = false
+  /\ match flow_unparse ex_flow_wrong_mainarg false with
+     | Ok cells => match flow_parse cells with Ok v' => negb (value_eqb v' ex_flow_wrong_mainarg) | Err _ => true end
+     | Err _ => true
+     end = true.
+Proof. exact flow_wrong_mainarg_refuted. Qed.
+Print Assumptions C07_flow_wrong_mainarg_refuted.
+
+(* 3. the order of the columns is irrelevant as long as the columns of one list first appear by
+      increasing index ([cols_ordered], on the headers split at "."): any such permutation of the
+      written row is read back as the instance (covers any column order a sheet may have) *)
+Theorem C07_header_order_irrelevant : forall root v targets cells cells',
+  row_dom root v targets = true ->
+  unparse_row root v targets [] = Ok cells ->
+  Permutation cells cells' ->
+  cols_ordered root (cols_of_cells cells') = true ->
+  parse_row {| rm_ty := root; rm_ctx := None |} cells' = Ok v.
+Proof. exact header_order_irrelevant. Qed.
+Print Assumptions C07_header_order_irrelevant.
+
+Example C07_header_order_irrelevant_nonvacuous :
+  Permutation ex_cells ex_cells_shuffled /\ cols_ordered ex_ty (cols_of_cells ex_cells_shuffled) = true.
+Proof. exact ex_shuffled_hyps. Qed.
+Print Assumptions C07_header_order_irrelevant_nonvacuous.
+
+(* ... and the ordering condition cannot be dropped: u.2 before u.1 *)
+Theorem C07_header_order_unrestricted_refuted :
+  Permutation ex_cells ex_cells_bad_order
+  /\ cols_ordered ex_ty (cols_of_cells ex_cells_bad_order) = false
+  /\ parse_row {| rm_ty := ex_ty; rm_ctx := None |} ex_cells_bad_order = Err EAssert.
+Proof. exact header_order_unrestricted_refuted. Qed.
+Print Assumptions C07_header_order_unrestricted_refuted.
+
+(* 4. the hypotheses cannot be dropped: witnesses outside the domain (replayed on the real
+      RowParser by the harness) *)
+Theorem C07_all_default_in_list_refuted :
+  row_dom r1_ty r1_v [] = false
+  /\ unparse_row r1_ty r1_v [] [] = Ok [([97%N], [113%N])]
+  /\ parse_row {| rm_ty := r1_ty; rm_ctx := None |} [([97%N], [113%N])] = Ok r1_back
+  /\ r1_back <> r1_v.
+Proof. exact all_default_in_list_refuted. Qed.
+Print Assumptions C07_all_default_in_list_refuted.
+
+Theorem C07_packed_blank_refuted :
+  row_dom r2_ty r2_v [[115%N]] = false
+  /\ unparse_row r2_ty r2_v [[115%N]] [] = Ok r2_cells
+  /\ parse_row {| rm_ty := r2_ty; rm_ctx := None |} r2_cells = Ok r2_back
+  /\ r2_back <> r2_v.
+Proof. exact packed_blank_refuted. Qed.
+Print Assumptions C07_packed_blank_refuted.
+
+Theorem C07_packing_limit_refuted :
+  row_dom r4_ty r4_v [[108%N]] = false
+  /\ unparse_row r4_ty r4_v [[108%N]] [] = Err EJoin.
+Proof. exact packing_limit_refuted. Qed.
+Print Assumptions C07_packing_limit_refuted.
